@@ -317,13 +317,13 @@ func (c *Ctx) rulePhaseConstructor() {
 // bodySetEvidence: a dominating BodyCoords.IsSet() test on the same directive, or a named site where the error of kind
 // kit.Error can only originate from parsing the body.
 var bodySetExceptions = map[string]string{
-	"core.jschemaToJAPIError":               "called with raw user types / enums whose body was required when their schema was created (buildUserTypes / buildRule test IsSet)",
-	"core.(*JApiCore).checkUserType":        "raw user types have a body (buildUserTypes returns BodyIsEmpty otherwise)",
-	"core.(*JApiCore).addRequest":           "the kit.Error branches are inside the switch cases that require d.BodyCoords.IsSet()",
-	"core.(*JApiCore).addJsonRpcSchema":     "",
-	"core.(*JApiCore).addHeaders":           "",
-	"core.(*JApiCore).addQuery":             "",
-	"catalog.adoptErrorForResponseBody":     "",
+	"core.jschemaToJAPIError":           "called with raw user types / enums whose body was required when their schema was created (buildUserTypes / buildRule test IsSet)",
+	"core.(*JApiCore).checkUserType":    "raw user types have a body (buildUserTypes returns BodyIsEmpty otherwise)",
+	"core.(*JApiCore).addRequest":       "the kit.Error branches are inside the switch cases that require d.BodyCoords.IsSet()",
+	"core.(*JApiCore).addJsonRpcSchema": "",
+	"core.(*JApiCore).addHeaders":       "",
+	"core.(*JApiCore).addQuery":         "",
+	"catalog.adoptErrorForResponseBody": "",
 }
 
 func (c *Ctx) bodySetEvidence(f *Fn, call *ast.CallExpr) bool {
